@@ -79,7 +79,7 @@ def check(ctx):
                    not cap, node=c, construct=f"closure {name} captures {sorted(cap)}",
                    msg=f"closure {name} reads {sorted(cap)} as free variable(s) although the enclosing loop rebinds them: every closure sees the last iteration's value",
                    path=f"{f.fq} loop@{loop.lineno} -> closure@{c.lineno}")
-    ctx.floor("C20-R1", "closures created in loops (repo-wide)", n, 6)
+    ctx.floor("C20-R1", "closures created in loops (repo-wide)", n, 2)
 
     _check_routes(ctx, repo)
     _check_shutdown(ctx, repo)
